@@ -3,7 +3,7 @@ import inst_check
 
 ASSUMPTIONS = [
     "class grammar: K1 leaf (optionally keyed/frozen), K2 node with int/str/Optional, nested spec, List/Dict/Set of scalars, List/Dict of (keyed) spec classes, K3 spec subclass; KeyedList/KeyedSet attributes and do_not_copy=True classes are outside the model",
-    "crash points: every user callback the call invokes raising at its 1st..3rd invocation (fail_at); line-level injection inside library code is not exercised by this check",
+    "crash points: user callbacks raising at their 1st..3rd invocation (model + implementation, any invocation in the theorem); exceptions injected at executed lines of library code (implementation only, oracle = pre-existing graph unchanged)",
     "user callbacks are pure (only allocate)",
 ]
 GENS = [
@@ -17,3 +17,96 @@ def main(tier, replay=None):
     if replay:
         return inst_check.replay("C01", replay, 2)
     return inst_check.run("C01", tier, 2, GENS, 400, 6000, ASSUMPTIONS)
+
+
+# ---------------------------------------------------------------------------
+# Line-level crash points (implementation only; no model): the call is cut short
+# by an exception raised at the i-th executed line of library code.  Oracle: the
+# canonical graph of everything that existed before the call is unchanged.
+import sys
+
+import inst_common as ic
+import inst_gen as ig
+
+
+class Injected(Exception):
+    pass
+
+
+def _run_with_injection(world, op, at):
+    count = [0]
+
+    def tracer(frame, event, arg):
+        if "spec_classes/" not in frame.f_code.co_filename:
+            return None
+
+        def local(frame, event, arg):
+            if event == "line":
+                count[0] += 1
+                if count[0] == at:
+                    raise Injected(f"injected at executed line {at}: {frame.f_code.co_filename}:{frame.f_lineno}")
+            return local
+        return local
+    ic.CB.reset(None)
+    sys.settrace(tracer)
+    try:
+        world.apply(op)
+        outcome = "returned"
+    except Injected as e:
+        outcome = str(e)
+    except BaseException as e:   # the operation's own error (e.g. ill-typed argument)
+        outcome = "raised " + type(e).__name__
+    finally:
+        sys.settrace(None)
+    return outcome, count[0]
+
+
+def line_injection(chk, cases, bad, extra):
+    quick = chk.tier == "quick"
+    budget = 1500 if quick else 40000
+    stride = 5 if quick else 1
+    done = calls = 0
+    for case in cases:
+        if done >= budget:
+            break
+        ops = case["ops"]
+        targets = [j for j, (op, _) in enumerate(ops)
+                   if op[0] == "helper" and not op[3].get("inplace") or op[0] == "deepcopy"]
+        if not targets:
+            continue
+        j = targets[-1]
+        try:
+            w = ic.World(case["table"])
+            w.run(ops[:j])
+        except BaseException:
+            continue
+        before = w.canon()
+        nroots = len(w.roots)
+        _, total = _run_with_injection(w, ops[j][0], 0)     # dry run: count executed lines
+        calls += 1
+        start = 1 + chk.rng.randrange(stride)
+        for at in range(start, total + 1, stride):
+            if done >= budget:
+                break
+            w = ic.World(case["table"])
+            w.run(ops[:j])
+            outcome, _ = _run_with_injection(w, ops[j][0], at)
+            done += 1
+            after = w.canon(w.roots[:nroots])
+            if after != before:
+                chk.violation(
+                    "copy-on-write call cut short by an exception changed a pre-existing object: "
+                    + outcome, {"table": case["table"], "ops": ops[:j + 1], "nd": case["nd"],
+                                "inject_at_executed_line": at, "outcome": outcome,
+                                "graph_before": before, "graph_after": after},
+                    sig={"kind": "line-injection"})
+                return
+    extra["line_injection"] = {"calls": calls, "injections": done, "stride": stride,
+                               "rule": "last copy-on-write call of a generated history, exception raised at every "
+                                       f"{stride}-th executed line of spec_classes code; implementation only"}
+
+
+def main(tier, replay=None):  # noqa: F811  (supersedes the definition above)
+    if replay:
+        return inst_check.replay("C01", replay, 2)
+    return inst_check.run("C01", tier, 2, GENS, 400, 6000, ASSUMPTIONS, post=line_injection)
